@@ -29,6 +29,12 @@ CLAIMED = {
  "C17": ("Coq theorems on Model/Outcome.v: every entry of the outcome table lies in [0,1]; the 2*nst entries sum to one (any number of states/traces/non-negative weights); the table and the counts are invariant under any permutation of the traces; counts = number of traces per (state, side); equal weights give count/N; hop-histogram entries in [0,1]. Binary64 runs against real batches of five trajectory classes (unequal even-sampling weights), both back-ends, shuffled, counts(), summarize() text and CLI averaged rows. KNOWN FINDING: summarize() raises for YAML-backed batches (no .hops).",
          "trusts: Coq kernel/vm_compute; real-number axioms; final (weight, active, side, hops) read from each real trace by the harness",
          "Coq proof (list induction, Permutation) on hand-written model + correspondence", "DESIGN.md §3 C17"),
+ "C14": ("Coq theorems on Model/TraceStore.v: for every page size >= 1, every snapshot sequence and any element type, the YAML store's paging (collect/__len__/__iter__/__getitem__ with negative and out-of-range indices/reload size arithmetic, exact multiples included) observes exactly like the plain list = the in-memory store; reload-then-append = append; Python negative-index rule; find_unique_name returns the least unused index (never reuses a name). Correspondence: random sequences of init/collect/event/reload/clone over several live traces in one directory; after every operation the parsed directory equals the Coq file-map model; reads compared with the recorded list with exact numeric equality (signed zero, subnormals, 1e300, 17-digit floats); collect command output. Partial: clone independence / init-never-overwrites are checked by the correspondence run, not stated as theorems.",
+         "trusts: Coq kernel/vm_compute (no axioms: closed under the global context); PyYAML text round trip (oracle); the harness's directory parser",
+         "Coq proof (invariant by induction over operations, refinement to a list) + lock-step correspondence on a real directory", "DESIGN.md §3 C14"),
+ "C15": ("Coq theorem on Model/Crash.v: for every page size, every snapshot sequence and every directory state visited while the (k+1)-th snapshot is being recorded (after each completed file operation of the repaired collect/write_main_log), load_log reads a prefix of the recorded snapshots of length k or k+1. Exhaustive fault injection on the real code: every file operation (open w/a/x, os.replace) after initialisation is crashed before it, after the open but before any write, and after it; the directory is loaded and read back, compared with the model's load per operation; real trajectories crashed mid-run are restarted from the loaded log and continued.",
+         "trusts: Coq kernel/vm_compute (no axioms); crash = exception at a file operation (no torn write inside one write call); os.replace atomic",
+         "Coq proof (prefix invariant over all visited disk states) + exhaustive crash-point injection", "DESIGN.md §3 C15"),
 }
 NOT_YET = "check not built yet in this commit (work in progress; see DESIGN.md §3 for the planned proof)"
 
